@@ -476,6 +476,61 @@ func c15r5(c *Ctx) {
 						}
 					}
 				}
+				// … and the search looks at every element: the append is reached from the search loop only when the loop is
+				// exhausted (through its header), never by a `break` out of the body after a look at some elements only
+				if bad == "" && n > 0 {
+					for ed, fs := range e.EdgeFacts() {
+						isSearch := false
+						for _, f := range fs {
+							if !f.Lin && strings.HasPrefix(f.Atom, "eq(") && strings.Contains(f.Atom, q) && strings.Contains(f.Atom, list+"[") {
+								isSearch = true
+							}
+						}
+						if !isSearch {
+							continue
+						}
+						// the loop header: the block that advances the iteration over the list (range), else the closest dominator of
+						// the test that a back edge reaches
+						var h *ssa.BasicBlock
+						for _, hb := range fn.Blocks {
+							for _, hi := range hb.Instrs {
+								if nx, ok := hi.(*ssa.Next); ok {
+									if rg, ok := nx.Iter.(*ssa.Range); ok && e.Term(rg.X) == list && hb.Dominates(ed.from) {
+										h = hb
+									}
+								}
+							}
+						}
+						for d := ed.from; d != nil && h == nil; d = d.Idom() {
+							for _, pb := range d.Preds {
+								if pb != d && d.Dominates(pb) {
+									h = d
+								}
+								if _, isPhi := d.Instrs[0].(*ssa.Phi); isPhi && h == nil && len(d.Preds) > 1 {
+									_ = pb
+								}
+							}
+						}
+						if h == nil {
+							// the comparison is not inside a loop at all: one position of the list is looked at
+							for _, f := range fs {
+								if !f.Lin && !f.Pos && strings.HasPrefix(f.Atom, "eq(") && strings.Contains(f.Atom, q) && strings.Contains(f.Atom, list+"[") && (ed.to == b || blockReaches(ed.to, b, nil)) {
+									bad = "the search looks at one position of the list only (" + f.Atom + ") and goes on to the append: a role that is held at another position is appended again (duplicate)"
+								}
+							}
+							continue
+						}
+						// from the side on which the element examined is NOT the role, the append is reached only through the header
+						// (the next element, or exhaustion) — not by leaving the search early
+						for _, f := range fs {
+							if !f.Lin && !f.Pos && strings.HasPrefix(f.Atom, "eq(") && strings.Contains(f.Atom, q) && strings.Contains(f.Atom, list+"[") {
+								if ed.to != h && (ed.to == b || blockReaches(ed.to, b, h)) {
+									bad = "after an element that is not the role the search goes on to the append without looking at the remaining elements (b" + fmt.Sprint(ed.from.Index) + "→b" + fmt.Sprint(ed.to.Index) + "): a role that is held, but not at the position examined, is appended again (duplicate)"
+								}
+							}
+						}
+					}
+				}
 				construct := "append(" + list + ", " + q + ")"
 				switch {
 				case n == 0:
